@@ -236,13 +236,28 @@ def run_property(ctx, parts, level, assumptions, level_rule, replay=None):
             cases = part.cases(ctx)
         else:
             cases = [replay["case"]] if replay.get("part") == part.name else []
-        traces, kept = [], []
+        traces, kept, crashed = [], [], []
         with quiet():
             for c in cases:
                 try:
                     tr = part.run_case(ctx, c)
                 except Skip:
                     info["skipped"] += 1
+                    continue
+                except MachineryError:
+                    raise
+                except Exception as e:      # noqa
+                    # an exception that escapes from artap code while a driver exercises it is an observation (the property's
+                    # operations are total on the driver's inputs); one raised by harness code alone is a machinery failure
+                    frames = traceback.extract_tb(e.__traceback__)
+                    if not any(os.path.abspath(fr.filename).startswith(os.path.abspath(REPO) + os.sep) for fr in frames):
+                        raise
+                    where = [fr for fr in frames if os.path.abspath(fr.filename).startswith(os.path.abspath(REPO) + os.sep)][-1]
+                    crashed.append({"part": part.name, "case": jsonable(c),
+                                    "trace": [{"ev": "exception", "exc": "%s: %s" % (type(e).__name__, str(e)[:160]),
+                                               "where": "%s:%s" % (os.path.relpath(where.filename, REPO), where.name)}],
+                                    "fail": {"event": 0, "clause": "implementation-raised-" + type(e).__name__},
+                                    "key": "%s:raised:%s:%s" % (part.name, type(e).__name__, where.name)})
                     continue
                 traces.append(jsonable(tr))
                 kept.append(c)
@@ -261,6 +276,8 @@ def run_property(ctx, parts, level, assumptions, level_rule, replay=None):
                                        "key": part.key(c, tr, v)})
             for c, tr in list(zip(kept, traces))[:2]:
                 samples.append({"part": part.name, **jsonable(part.sample(c, tr))})
+        violations.extend(crashed)
+        info["raised"] = len(crashed)
         info["wall_s"] = round(time.time() - pt0, 1)
         per_part[part.name] = info
         n_cases += info["cases"]
